@@ -41,7 +41,7 @@ ASSUMPTIONS = [
 
 MODS = ["si", "us", "energy", "astronomical", "metric", "iec"]
 OPS = ["mul", "div", "pow", "root", "ratio", "str", "fmt", "repr", "pretty", "html", "parse", "conv", "cmp", "add",
-       "pickle", "json", "cli", "define", "numer", "denom", "prefix", "qpretty", "unprefixed", "convswap", "powconv"]
+       "pickle", "json", "cli", "define", "numer", "denom", "prefix", "qpretty", "unprefixed", "convswap", "powconv", "powprodconv"]
 
 
 def setup(tier):
@@ -53,7 +53,7 @@ def budget(tier):
 
 
 def strategy(tier):
-    OP = st.sampled_from(OPS + ["mul", "div", "div", "div", "fmt", "fmt", "ratio", "ratio", "root", "root", "conv", "conv", "numer", "numer", "denom", "pretty", "cli", "pow", "convswap", "convswap", "powconv", "powconv"])
+    OP = st.sampled_from(OPS + ["mul", "div", "div", "div", "fmt", "fmt", "ratio", "ratio", "root", "root", "conv", "conv", "numer", "numer", "denom", "pretty", "cli", "pow", "convswap", "convswap", "powconv", "powconv", "powprodconv", "powprodconv"])
     IDX = st.integers(0, 10**6)
     N = st.sampled_from([-3, -2, -1, 2, 3, 4, -4])
     step = st.tuples(OP, IDX, IDX, N).map(list)
@@ -249,23 +249,56 @@ def run_case(case) -> core.Outcome:
                     (2 * b).in_unit(a)
                 except Exception:
                     pass
-            elif op in ("convswap", "powconv"):
+            elif op in ("convswap", "powconv", "powprodconv"):
                 # convert to a partner built by swapping every base factor for another
                 # registered unit of the same dimension (how real conversions look)
-                src = a**n if op == "powconv" else a
+                if op == "powprodconv":
+                    # a product of equal powers whose common root was never built
+                    # (m**2 * s**2 / min**2): conversions take that root themselves
+                    k_ = 2 if n % 2 == 0 else 3
+                    groups = [g for _, g in sorted(r.bydim.items()) if len(g) >= 2]
+                    if j % 3 and groups:
+                        # ... times a dimensionless ratio of two units of one kind, so that the whole
+                        # has the dimension of a**k and converts to (another unit like a)**k
+                        g = groups[(j // 3) % len(groups)]
+                        b, mb = g[j % len(g)], None
+                        c2 = g[(j // 5 + 1) % len(g)]
+                        mb = model.m_mul(snap.structure[b.name], snap.structure[c2.name], -1)
+                        b = b / c2
+                    src = a**k_ * b**k_ if n > 0 else a**k_ / b**k_
+                else:
+                    src = a**n if op == "powconv" else a
                 dst = m.One
                 k = j
-                for f, e in list(src.factors.items()):
+                if op == "powprodconv" and j % 3 and tuple(a.dimension.exponents) in r.bydim and len(a.factors) == 1:
+                    alts = r.bydim[tuple(a.dimension.exponents)]
+                    dst = alts[(j // 7) % len(alts)] ** (k_ if n > 0 else k_)
+                    try:
+                        (2 * src).in_unit(dst)
+                    except Exception:
+                        pass
+                    dst = None
+                for f, e in list(src.factors.items()) if dst is not None else []:
                     if f is m.One:
                         continue
                     alts = r.bydim.get(tuple(f.dimension.exponents), [f])
                     dst = dst * alts[k % len(alts)] ** e
                     k = k // 7 + 1
                 try:
-                    (2 * src).in_unit(dst)
+                    if dst is not None:
+                        (2 * src).in_unit(dst)
                 except Exception:
                     pass
-                res = (src, model.m_pow(ma, n) if (ma and op == "powconv") else ma)
+                if op == "powprodconv":
+                    mm = None
+                    if ma and mb:
+                        mm = model.m_mul(model.m_pow(ma, k_), model.m_pow(mb, k_), 1 if n > 0 else -1)
+                    res = (src, mm)
+                    # the common root, built by ordinary arithmetic after the conversion
+                    root_unit = a * b if n > 0 else a / b
+                    r.add(root_unit, model.m_mul(ma, mb, 1 if n > 0 else -1) if (ma and mb) else None)
+                else:
+                    res = (src, model.m_pow(ma, n) if (ma and op == "powconv") else ma)
             elif op == "cmp":
                 try:
                     (2 * a) == (3 * b), (2 * a) < (3 * b)
@@ -326,7 +359,7 @@ def run_case(case) -> core.Outcome:
                 res = (p * a, model.m_mul(ma, ({}, model.m_prefix_of(p))) if ma else None)
         except Exception as e:  # noqa
             out.classes.append(f"op-raised:{op}:{type(e).__name__}")
-        if op in ("fmt", "pretty", "qpretty", "html", "cli", "ratio", "root", "conv", "convswap", "powconv", "cmp", "add", "str") and shape != "plain":
+        if op in ("fmt", "pretty", "qpretty", "html", "cli", "ratio", "root", "conv", "convswap", "powconv", "powprodconv", "cmp", "add", "str") and shape != "plain":
             risky_render = True
             seen_pairs.add((op, _s(a)))
         out.classes.append(f"op:{op}")
